@@ -323,6 +323,12 @@ def reuse_workload(ctx):
                     def fpv(msgs):
                         return core.fp(sorted((x.get("message"), x.get("error")) for x in msgs))
                     try:
+                        if sidx % 3 == 0:
+                            # the excluded option used ONCE on this Validator, on a throw-away copy: it must not stick to the object
+                            scratch = copy.deepcopy(held)
+                            scratch["status"] = "not a status either"
+                            v.validate(scratch, schema_name=tname, add_comments=True)
+                            res.count("add_comments_calls_in_history")
                         for edit in ("as-loaded", "break", "break-more", "repair"):
                             if edit == "break":
                                 held["status"] = "certainly not a status"
@@ -331,7 +337,12 @@ def reuse_workload(ctx):
                             elif edit == "repair":
                                 held.pop("status", None)
                                 held.pop("zzunknown", None)
+                            before_fp = core.fp(held)
                             a = fpv(v.validate(held, schema_name=tname, version=version))
+                            if core.fp(held) != before_fp:
+                                res.violation("reused-validator-modifies-the-dictionary", dict(case, edit=edit),
+                                              "dictionary changed by validate()", "unchanged")
+                                break
                             b = fpv(Validator().validate(copy.deepcopy(held), schema_name=tname, version=version))
                             res.count("same_object_revalidations")
                             if a != b:
